@@ -220,6 +220,12 @@ def part_b_c(chk, tier):
                                         chk.violation("cvxpy:%s:beaten_by_truth:%s" % (cfgk, family), "loss at the CVXPY/SCS estimate %.9g, at the truth %.9g [%s]" % (fcv, ft, tag), case)
                                     if dname == "exact" and np.max(np.abs(cvx - np.asarray(tr2.to_var()))) > 5e-3:
                                         chk.violation("cvxpy:%s:exact_data:%s" % (cfgk, family), "CVXPY/SCS on exact data of a physical object deviates by %.3g [%s]" % (float(np.max(np.abs(cvx - np.asarray(tr2.to_var())))), tag), case)
+                                    # the CVXPY-backed estimate is a minimiser too: backtracking (a physical competitor) must not beat it
+                                    gap = (fcv - f_est) / (1 + abs(f_est))
+                                    chk.notes["cvxpy_max_excess_loss"] = max(chk.notes.get("cvxpy_max_excess_loss", 0.0), float(gap))
+                                    if gap > 2e-5:
+                                        chk.violation("cvxpy:%s:beaten_by_backtracking:%s" % (cfgk, family),
+                                                      "loss at the CVXPY/SCS estimate %.9g, at the backtracking estimate %.9g [%s]" % (fcv, f_est, tag), case)
                                     if abs(fcv - f_est) > 2e-4 * (1 + abs(f_est)) and fcv < f_est:
                                         chk.violation("optimum:%s:cvxpy_lower:%s" % (cfgk, family), "CVXPY/SCS reaches loss %.9g, backtracking %.9g [%s]" % (fcv, f_est, tag), case)
                                     if np.max(np.abs(cvx - est)) > 5e-2 and abs(fcv - f_est) > 1e-3 * (1 + abs(f_est)):
